@@ -71,6 +71,9 @@ func RunE1(c *Ctx, spec E1Spec) []*e1.Outcome {
 				c.Rep.Count("programs_in_quarantined_class_skipped", 1)
 				continue
 			}
+			if own[p.Name] {
+				p.Isolate = true
+			}
 			kept = append(kept, p)
 		}
 		spec.Programs = kept
@@ -114,6 +117,7 @@ func RunE1(c *Ctx, spec E1Spec) []*e1.Outcome {
 	kinds := kindSet(spec.Kinds)
 	feat := map[string]int{}
 	var events, runs, paths, maxTrace, budgetRuns, compared, uncompiled, panicRuns int
+	var notAccepted []string
 	for _, o := range outs {
 		p := o.Prog
 		c.Rep.Eval(1)
@@ -132,7 +136,8 @@ func RunE1(c *Ctx, spec E1Spec) []*e1.Outcome {
 		if o.CompilePanic != "" || o.BuildErr != "" || o.S1BuildErr != "" {
 			uncompiled++
 			c.Rep.Count("programs_not_accepted_by_compiler", 1)
-			if spec.AcceptanceViolations {
+			notAccepted = append(notAccepted, p.Name+": "+firstLine(o.CompilePanic)+buildSig(o.BuildErr+o.S1BuildErr))
+			if spec.AcceptanceViolations || os.Getenv("COVERIF_ACCEPT") != "" {
 				what, sig := "", ""
 				switch {
 				case o.CompilePanic != "":
@@ -205,6 +210,12 @@ func RunE1(c *Ctx, spec E1Spec) []*e1.Outcome {
 		if len(o.Run.Sample) > 0 && (spec.NonTrivial == nil || spec.NonTrivial(o)) {
 			c.Rep.Sample(map[string]any{"program": p.Name, "features": p.Features, "go_co_source": o.CoSource, "tape": o.Run.SampleTape, "trace": strings.Join(o.Run.Sample, " "), "paths_explored": o.Run.Paths})
 		}
+	}
+	if len(notAccepted) > 0 {
+		if len(notAccepted) > 30 {
+			notAccepted = notAccepted[:30]
+		}
+		c.Rep.Set("not_accepted_list", notAccepted)
 	}
 	c.Rep.Count("programs_compared", compared)
 	c.Rep.Count("events_observed", events)
